@@ -15,6 +15,7 @@ import (
 	"sort"
 	"strconv"
 	"strings"
+	"time"
 
 	"verifharness/hlib"
 
@@ -705,7 +706,9 @@ func main() {
 				continue
 			}
 			min := lines
-			if minimize && f.Sig == "proof-depth-exceeded-honest-proof" {
+			if minimize && strings.HasPrefix(f.Sig, "proof-depth-exceeded-checkpoint") {
+				// canonical witness: the whole case (a >128-deep tree is needed anyway)
+			} else if minimize && f.Sig == "proof-depth-exceeded-honest-proof" {
 				// canonical witness: the tree and the first honest query; no delta debugging
 				// (every run of a >128-deep tree costs seconds)
 				var keep []string
@@ -722,7 +725,13 @@ func main() {
 				}
 				min = keep
 			} else if minimize && f.Sig != "driver-panic" {
+				budget := 400
+				deadline := time.Now().Add(60 * time.Second)
 				min = hlib.Shrink(lines, func(c []string) bool {
+					budget--
+					if budget < 0 || time.Now().After(deadline) {
+						return false
+					}
 					ff, _ := run(c, hlib.NewResult("shrink", 0))
 					for _, g := range ff {
 						if g.Sig == f.Sig {
@@ -769,6 +778,10 @@ func main() {
 		cr := rng.Fork()
 		cs := cr.Seed()
 		lines := gen(cr, res, i)
+		if d := os.Getenv("VERIF_DUMP"); d != "" {
+			_ = os.WriteFile(fmt.Sprintf("%s/case%d.txt", d, i), []byte(strings.Join(lines, "\n")+"\n"), 0o644)
+			continue
+		}
 		runOne(lines, cs, true)
 		if i < 2 {
 			res.AddSample(strings.Join(headLines(lines, 12), " ; "))
